@@ -15,6 +15,7 @@ EXTENDS Naturals, Sequences, FiniteSets
 X(n) == [k |-> "x", v |-> n, m |-> <<>>]
 D(n) == [k |-> "d", v |-> n, m |-> <<>>]
 AnyV  == [k |-> "any", v |-> 0, m |-> <<>>]
+OneOf(ids) == [k |-> "in", v |-> 0, m |-> ids]      \* (expectations only) a leaf whose identity is one of the sequence ids
 M(f) == [k |-> "m", v |-> 0, m |-> f]
 EmptyMap == M(<<>>)
 
@@ -63,6 +64,7 @@ Match(e, o, strict) ==
     IF e.k = "any" THEN TRUE
     ELSE IF e.k = "m" THEN /\ o.k = "m" /\ DOMAIN e.m = DOMAIN o.m
                            /\ \A key \in DOMAIN e.m : Match(e.m[key], o.m[key], strict)
+    ELSE IF e.k = "in" THEN o.k \in {"x", "d"} /\ \E i \in DOMAIN e.m : e.m[i] = o.v
     ELSE /\ o.k \in {"x", "d"} /\ e.v = o.v
          /\ (strict => e.k = o.k)
 
@@ -74,6 +76,7 @@ Diff(e, o, strict, p) ==
         UNION {IF key \in DOMAIN e.m /\ key \in DOMAIN o.m THEN Diff(e.m[key], o.m[key], strict, Append(p, key))
                ELSE {Append(p, key)} : key \in (DOMAIN e.m) \cup (DOMAIN o.m)}
     ELSE IF e.k = "m" \/ o.k = "m" THEN {p}
+    ELSE IF e.k = "in" THEN (IF \E i \in DOMAIN e.m : e.m[i] = o.v THEN {} ELSE {p})
     ELSE IF e.v = o.v /\ (strict => e.k = o.k) THEN {} ELSE {p}
 
 (* value of the longest prefix of path p present in map value v: <<value, length of that prefix>>         *)
@@ -91,13 +94,18 @@ ClauseAt(s, p) ==
        ELSE "merge.precedence"
 
 (* ---- option groups (C++ language-standard shorthands) ----                                             *)
-(* opts, block: map contents; mentioned: option keys that a non-built-in source mentions.  Every option    *)
-(* of the documented block is set as a unit; whether an option the user gave explicitly survives is not    *)
-(* fixed by the statement (AnyV).                                                                          *)
-GroupApply(opts, block, mentioned) ==
+(* A shorthand (c++17-pmr, cetl++14-17) stands for a DOCUMENTED block of options.  The block is part of the *)
+(* statement (a fixed table of the check, from docs/languages.rst), never something read from the            *)
+(* configuration of the tree under test.                                                                   *)
+(* opts: map contents after the precedence merge; block: documented key -> expectation (a value or OneOf);   *)
+(* protected: option keys that a source of the same or a higher precedence than the one that selected the    *)
+(* shorthand gives explicitly.  Every key of the block has its documented value whatever built-in, files    *)
+(* or earlier documents put there (the group is set as a unit); a protected key is not fixed by the          *)
+(* statement (AnyV).                                                                                        *)
+GroupApply(opts, block, protected) ==
     [key \in (DOMAIN opts) \cup (DOMAIN block) |->
         IF key \notin DOMAIN block THEN opts[key]
-        ELSE IF key \in mentioned THEN AnyV
+        ELSE IF key \in protected THEN AnyV
         ELSE block[key]]
 (* the stored configuration may or may not show the group (it is the created language that reports it)    *)
 GroupLoose(opts, block) ==
